@@ -18,10 +18,12 @@ Theorem c12_table_ok :
   forallb (kv_plain_ok C12_Table.kv_table) C12_Table.kv_plain_table = true /\
   forallb (kv_ctx_ok C12_Table.redis_table) C12_Table.kv_table = true /\
   C12_Table.client_table = client_spec /\
-  C12_Table.scriptcache_table = scriptcache_spec.
+  C12_Table.scriptcache_table = scriptcache_spec /\
+  C12_Table.construction_table = construction_spec.
 Proof.
   exact (conj link_redis_table (conj link_kv_table (conj link_plain_rule (conj link_plain_complete
-        (conj link_kv_plain_rule (conj link_kv_ctx (conj link_client_table link_scriptcache_table))))))).
+        (conj link_kv_plain_rule (conj link_kv_ctx (conj link_client_table
+        (conj link_scriptcache_table link_construction_table)))))))).
 Qed.
 Print Assumptions c12_table_ok.
 
@@ -234,6 +236,46 @@ Proof.
 Qed.
 Print Assumptions c12_evalsha_cached.
 
+(* Construction options.  New(addr, opts...) yields an instance whose go-redis client is configured with exactly the
+   arguments given -- address addr; cluster client iff WithCluster() is among the options; TLS iff WithTLS() is; the
+   password of the LAST WithPass (none: empty) -- whatever the order and combination of the options; and
+   Config{Host, Type, Pass, Tls}.NewRedis() hands every one of type=cluster, Pass, Tls on, independently. *)
+Theorem c12_options_applied :
+  (forall addr opts,
+     let '(ty, a, p, t) := dial_config (new_w addr opts) in
+     a = addr /\ (ty = TCluster <-> In OCluster opts) /\ (t = true <-> In OTLS opts) /\ p = last_pass opts "") /\
+  (forall c, dial_config (new_redis c) =
+             ((if String.eqb (c_type c) "cluster" then TCluster else TNode), c_host c, c_pass c, c_tls c)).
+Proof.
+  split.
+  - intros addr opts. unfold dial_config, new_w.
+    destruct (fold_opts opts (mkw addr TNode "" false)) as [Ha [Ht [Hl Hp]]]. simpl in *.
+    repeat split; try assumption.
+    + intro H. apply Ht in H as [H|H]; [discriminate|assumption].
+    + intro H. apply Ht. right. assumption.
+    + intro H. apply Hl in H as [H|H]; [discriminate|assumption].
+    + intro H. apply Hl. right. assumption.
+  - intro c. rewrite new_redis_fields. reflexivity.
+Qed.
+Print Assumptions c12_options_applied.
+
+(* Blocking nodes own their client.  For ANY history of getClient / CreateBlockingNode / node.Close() calls: no pooled
+   client of the manager (the one every *Redis of that address uses) is ever closed, and a client is closed only by a
+   Close() on exactly that blocking node -- so closing one node affects neither r, nor another *Redis of the same
+   address, nor another open node. *)
+Theorem c12_blocking_node_owned :
+  forall h,
+    (forall a id, In (a, id) (bs_mgr (brun h)) -> ~ In id (bs_closed (brun h))) /\
+    (forall id, In id (bs_closed (brun h)) -> In (BClose id) h).
+Proof.
+  intro h. split.
+  - intros a id Hin Hc.
+    assert (I : binv (brun h)). { apply brun_inv. unfold binv; simpl. split; [|split]; intros; contradiction. }
+    destruct I as [Hm [_ Hcl]]. destruct (Hm _ _ Hin) as [_ Hn]. apply Hn, Hcl, Hc.
+  - intros id H. apply closed_only_by_close in H as [H|H]; [contradiction|assumption].
+Qed.
+Print Assumptions c12_blocking_node_owned.
+
 (* ---- non-vacuity ---- *)
 Example c12_rows_exist :
   find_row C12_Table.redis_table "ZScoreCtx" =
@@ -256,6 +298,12 @@ Example c12_run_nonvacuous :
   run tt toy_exec (fun _ => "?") (fun b : nat => (true, b)) (fun b ok => if ok then b else Datatypes.S b) ENone 3 tbl
       "HGet" 0%nat "init" tt [VS "k"; VS "f"] = Some ((0%nat, "HGet"), (VZero, ENil), Some true).
 Proof. vm_compute. repeat split; reflexivity. Qed.
+
+Example c12_options_nonvacuous :
+  dial_config (new_w "h:1" [OTLS; OPass "a"; OCluster; OPass "b"]) = (TCluster, "h:1", "b", true) /\
+  dial_config (new_redis (mkrconfig "h:2" "cluster" "pw" false)) = (TCluster, "h:2", "pw", false) /\
+  bs_closed (brun [BGet "a"; BCreate; BCreate; BClose 1; BClose 0]) = [1%nat].
+Proof. repeat split; reflexivity. Qed.
 
 Example c12_scriptcache_nonvacuous :
   sc_get (sc_run [] [("s1", "a"); ("s2", "b"); ("s1", "c")]) "s1" = Some "c" /\
